@@ -1890,11 +1890,12 @@ def chained_logic(
 
 def optimize_or(left: SymbolicExpression, right: SymbolicExpression) -> OR:
 
+    # a variable that is computed from child variables (a predicate or a function call) is not a free variable.
     left_vars = left._unique_variables_.filter(
-        lambda v: not isinstance(v.value, Literal)
+        lambda v: not isinstance(v.value, Literal) and not v.value._child_vars_
     )
     right_vars = right._unique_variables_.filter(
-        lambda v: not isinstance(v.value, Literal)
+        lambda v: not isinstance(v.value, Literal) and not v.value._child_vars_
     )
     if set(left_vars.unwrapped_values) == set(right_vars.unwrapped_values):
         return ElseIf(left, right)
